@@ -235,7 +235,8 @@ def env_jobs(pid, tier, seed):
     if pid == "C15":
         return [envjob("env-distinct-batches", 0, seed, n(2500, 40000), maxbatch=n(16, 64), rounds=4, distinct=1, toggles=0),
                 envjob("menv-distinct-batches", 1, seed + 1, n(2500, 40000), maxbatch=n(16, 64), rounds=4, distinct=1, toggles=0),
-                envjob("env-mixed-kinds", 0, seed + 2, n(1000, 12000), maxbatch=8, rounds=5)]
+                envjob("env-mixed-kinds", 0, seed + 2, n(1000, 12000), maxbatch=8, rounds=5),
+                envjob("menv-mixed-kinds-toggles", 1, seed + 3, n(800, 10000), maxbatch=8, rounds=5)]
     return []
 
 
